@@ -155,7 +155,8 @@ class TransitionBatch:
                 ses.replay(prefix + [todo[failed_at]], exact_tags=self.exact_tags, label=self.label, sample=False, **self.kw)
                 todo = todo[failed_at + 1:]
             for last in changing:
-                ses.replay(prefix + [last], exact_tags=self.exact_tags, label=self.label, sample=False, **self.kw)
+                ses.replay(prefix + [last], exact_tags=self.exact_tags, label=self.label,
+                           sample=len(ses.check.cov["samples"]) < 3, **self.kw)
         self.groups = {}
 
 
